@@ -403,6 +403,16 @@ def fixed_shapes():
         s.types.append(TypeDef(kw, ("simple", "REAL")))
         e = Entity("e1", []); e.attrs = [Attr("a1", "e", kw)]; s.entities.append(e)
         out.append(s)
+    # the two kept MRO findings, at every seed: declared supertype orders with no C3 linearisation, and an ancestor listed
+    # before its own subtype (the random batch `random-any-supertype-order` produces them only at some seeds)
+    s = Schema("noc3")
+    for n, sup in [("n0", []), ("n1", []), ("n2", ["n0", "n1"]), ("n3", ["n1", "n2", "n0"])]:
+        e = Entity(n, sup); e.attrs = [Attr("a_" + n, "e", "INTEGER")]; s.entities.append(e)
+    out.append(s)
+    s = Schema("ancfirst")
+    for n, sup in [("n0", []), ("n1", ["n0"]), ("n2", ["n0", "n1"])]:
+        e = Entity(n, sup); e.attrs = [Attr("a_" + n, "e", "INTEGER")]; s.entities.append(e)
+    out.append(s)
     # attribute names that look like the generator's own parameter names / the runtime's names (seeded C18-e2)
     s = Schema("naming")
     for n, sup, at in [("a", [], ["x", "inherited", "a__b"]), ("b", ["a"], ["inherited_from", "inherited1", "scope", "count"]),
